@@ -304,3 +304,385 @@ impl Check for C14 {
         Box::pin(exec_c14(script))
     }
 }
+
+// ---------------------------------------------------------------------------
+// C15: registry convergence on 3 nodes
+// ---------------------------------------------------------------------------
+use rnacos::grpc::{PayloadHandler, PayloadUtils, RequestMeta};
+use serde::{Deserialize, Serialize};
+
+pub const CSVCS: [&str; 3] = ["conv-a", "conv-b", "conv-c"];
+
+#[derive(Serialize, Deserialize, Clone, Debug, PartialEq)]
+#[serde(tag = "op")]
+pub enum CStep {
+    HttpReg { node: u8, svc: u8, ip: u8, enabled: bool, weight: u8 },
+    HttpDereg { node: u8, svc: u8, ip: u8 },
+    GrpcReg { node: u8, conn: u8, svc: u8, ip: u8 },
+    GrpcDereg { node: u8, conn: u8, svc: u8, ip: u8 },
+    ConnClose { node: u8, conn: u8 },
+    Advance { ms: u64 },
+    /// loss / duplication / long delays of naming sync messages on or off
+    NetFaults { on: bool },
+    Cut { a: u8, b: u8 },
+    Heal,
+    Kill { node: u8 },
+    Restart { node: u8 },
+}
+
+fn c_ip(i: u8) -> String {
+    format!("10.7.0.{}", i % 5 + 1)
+}
+fn c_conn(node: u64, c: u8) -> String {
+    format!("{}_10.3.{}.{}:4{}000", node, node, c % 2 + 1, c % 2 + 1)
+}
+
+async fn http_call(n: &NodeH, method: &str, uri: &str) -> (u16, String) {
+    let app = api_app!(n);
+    let r = call(&app, method, uri, &[], None).await;
+    (r.status, r.text())
+}
+
+async fn grpc_instance(n: &NodeH, conn: &str, svc: &str, ip: &str, register: bool) -> bool {
+    let req = json!({"namespace": NS, "serviceName": svc, "groupName": GROUP, "type": if register { "registerInstance" } else { "deregisterInstance" },
+        "instance": {"ip": ip, "port": 8080, "weight": 1.0, "healthy": true, "enabled": true, "ephemeral": true, "clusterName": "DEFAULT", "metadata": {}}});
+    let payload = PayloadUtils::build_payload("InstanceRequest", req.to_string());
+    let meta = RequestMeta { connection_id: Arc::new(conn.to_string()), client_ip: "10.3.0.9".to_string(), ..Default::default() };
+    n.invoker.handle(payload, meta).await.map(|r| r.success).unwrap_or(false)
+}
+
+/// what a node serves for a service: (ip, healthy, enabled, weight*100)
+async fn served(n: &NodeH, svc: &str) -> BTreeSet<(String, bool, bool, u32)> {
+    instances_on(n, svc).await.iter().map(|i| (i.ip.as_ref().clone(), i.healthy, i.enabled, (i.weight * 100.0) as u32)).collect()
+}
+
+pub async fn exec_c15(script: Value) -> ExecResult {
+    let id = "C15";
+    let seed = script["seed"].as_u64().unwrap_or(1);
+    let cfg: NCfg = serde_json::from_value(script["cfg"].clone()).unwrap_or_default();
+    let steps: Vec<CStep> = match serde_json::from_value(script["steps"].clone()) {
+        Ok(s) => s,
+        Err(e) => return ExecResult { violation: Some(Violation::new("harness.script", e.to_string())), info: RunInfo::default() },
+    };
+    let fault_net: NetCfg = serde_json::from_value(script["fault_net"].clone()).unwrap_or_default();
+    tokio::fs::set_cfg(disk_cfg(&cfg));
+    tokio::fs::with_disk(|d| {
+        d.journal_on = false;
+        d.log_ops = false;
+    });
+    net_reset(seed, cfg.net.clone());
+    let root = run_root(seed);
+    let nn = cfg.nodes.max(1);
+    let mut digest = 0u64;
+    let mut ops = 0u64;
+    let mut findings: Vec<Violation> = vec![];
+    let mut zombie: Option<Violation> = None;
+    let r: VResult<()> = async {
+        cluster_up(&root, &cfg, id).await?;
+        advance(8_000).await;
+        let all_ids: Vec<u64> = (1..=nn).collect();
+        let pick_node = |x: u8| -> u64 { (x as u64 % nn) + 1 };
+        // expectations kept by the harness: which HTTP instances keep beating (and through which nodes), which gRPC
+        // instances are held by an open connection on a live node
+        let mut http_alive: BTreeMap<(u8, u8), (bool, u8)> = BTreeMap::new(); // -> (enabled, weight)
+        let mut grpc_alive: BTreeMap<(u8, u8), (u64, u8)> = BTreeMap::new(); // -> (node, conn)
+        let mut killed: BTreeSet<u64> = BTreeSet::new();
+        // keys whose state the harness does not know (an operation on them went unanswered)
+        let mut unknown: BTreeSet<(u8, u8)> = BTreeSet::new();
+        let mut rng = Rng::derive(seed, "C15.exec", 0);
+        let mut last_beat = sim::now_us();
+        // heartbeats of the HTTP instances continue throughout (otherwise they legitimately expire)
+        macro_rules! beats {
+            () => {{
+                if sim::now_us() >= last_beat + 4_000_000 {
+                    last_beat = sim::now_us();
+                    let live: Vec<u64> = all_ids.iter().filter(|x| !killed.contains(x)).cloned().collect();
+                    for ((s, a), _) in http_alive.clone() {
+                        let via = *rng.pick(&live);
+                        let name = CSVCS[s as usize % 3];
+                        let beat = json!({"ip": c_ip(a), "port": 8080, "serviceName": format!("{}@@{}", GROUP, name), "cluster": "DEFAULT", "weight": 1.0, "metadata": {}});
+                        let q = format!("serviceName={}&namespaceId={}&groupName={}&ip={}&port=8080&beat={}", urlencode(&format!("{}@@{}", GROUP, name)), NS, GROUP, c_ip(a), urlencode(&beat.to_string()));
+                        let _ = within(5_000, http_call(&node(via).unwrap(), "PUT", &format!("/nacos/v1/ns/instance/beat?{}", q))).await;
+                    }
+                }
+            }};
+        }
+        macro_rules! adv {
+            ($ms:expr) => {{
+                let mut rest: u64 = $ms;
+                loop {
+                    let slice = rest.min(1000);
+                    advance(slice).await;
+                    rest -= slice;
+                    beats!();
+                    if std::env::var("RNSIM_NM_DEBUG").is_ok() && (sim::now_us() / 1_000_000) % 3 == 0 {
+                        for s in 0..3usize {
+                            let mut line = format!("dbg t={} {}:", sim::now_us() / 1000, CSVCS[s]);
+                            for x in &all_ids {
+                                if killed.contains(x) {
+                                    continue;
+                                }
+                                let l = instances_on(&node(*x).unwrap(), CSVCS[s]).await;
+                                line.push_str(&format!(" n{}{:?}", x, l.iter().map(|i| format!("{}h{}fc{}g{}lm{}", i.ip.rsplit('.').next().unwrap_or(""), i.healthy as u8, i.from_cluster, i.from_grpc as u8, i.last_modified_millis % 1_000_000)).collect::<Vec<_>>()));
+                            }
+                            eprintln!("{}", line);
+                        }
+                    }
+                    if rest == 0 {
+                        break;
+                    }
+                }
+            }};
+        }
+        for (i, st) in steps.iter().enumerate() {
+            sim::event(&format!("step {} {}", i, serde_json::to_string(st).unwrap_or_default()));
+            match st {
+                CStep::HttpReg { node: x, svc, ip, enabled, weight } => {
+                    let x = pick_node(*x);
+                    if killed.contains(&x) {
+                        continue;
+                    }
+                    let (s, a) = (*svc % 3, *ip % 5);
+                    if grpc_alive.contains_key(&(s, a)) {
+                        continue;
+                    }
+                    let w = (*weight % 3) + 1;
+                    let q = format!("serviceName={}&ip={}&port=8080&namespaceId={}&groupName={}&enabled={}&weight={}", CSVCS[s as usize], c_ip(a), NS, GROUP, enabled, w);
+                    if let Some((200, _)) = within(8_000, http_call(&node(x).unwrap(), "POST", &format!("/nacos/v1/ns/instance?{}", q))).await {
+                        // the HTTP handler's update tag: a weight of 1 leaves the weight of an existing instance as it is
+                        let w_eff = match http_alive.get(&(s, a)) {
+                            Some((_, old_w)) if w == 1 => *old_w,
+                            _ => w,
+                        };
+                        http_alive.insert((s, a), (*enabled, w_eff));
+                        unknown.remove(&(s, a));
+                        ops += 1;
+                    } else {
+                        // an unanswered registration may or may not have taken effect: make the outcome definite
+                        http_alive.remove(&(s, a));
+                        unknown.insert((s, a));
+                        sim::count("probe.op_unanswered", 1);
+                    }
+                }
+                CStep::HttpDereg { node: x, svc, ip } => {
+                    let x = pick_node(*x);
+                    if killed.contains(&x) {
+                        continue;
+                    }
+                    let (s, a) = (*svc % 3, *ip % 5);
+                    if grpc_alive.contains_key(&(s, a)) {
+                        continue;
+                    }
+                    let q = format!("serviceName={}&ip={}&port=8080&namespaceId={}&groupName={}", CSVCS[s as usize], c_ip(a), NS, GROUP);
+                    let res = within(8_000, http_call(&node(x).unwrap(), "DELETE", &format!("/nacos/v1/ns/instance?{}", q))).await;
+                    http_alive.remove(&(s, a));
+                    if matches!(res, Some((200, _))) {
+                        unknown.remove(&(s, a));
+                    } else {
+                        unknown.insert((s, a));
+                        sim::count("probe.op_unanswered", 1);
+                    }
+                    ops += 1;
+                }
+                CStep::GrpcReg { node: x, conn, svc, ip } => {
+                    let x = pick_node(*x);
+                    if killed.contains(&x) {
+                        continue;
+                    }
+                    let (s, a) = (*svc % 3, *ip % 5);
+                    if http_alive.contains_key(&(s, a)) || grpc_alive.get(&(s, a)).map(|o| *o != (x, *conn % 2)).unwrap_or(false) {
+                        continue;
+                    }
+                    if grpc_instance(&node(x).unwrap(), &c_conn(x, *conn), CSVCS[s as usize], &c_ip(a), true).await {
+                        grpc_alive.insert((s, a), (x, *conn % 2));
+                        ops += 1;
+                    }
+                }
+                CStep::GrpcDereg { node: x, conn, svc, ip } => {
+                    let x = pick_node(*x);
+                    let (s, a) = (*svc % 3, *ip % 5);
+                    if killed.contains(&x) || grpc_alive.get(&(s, a)) != Some(&(x, *conn % 2)) {
+                        continue;
+                    }
+                    let _ = grpc_instance(&node(x).unwrap(), &c_conn(x, *conn), CSVCS[s as usize], &c_ip(a), false).await;
+                    grpc_alive.remove(&(s, a));
+                    ops += 1;
+                }
+                CStep::ConnClose { node: x, conn } => {
+                    let x = pick_node(*x);
+                    if killed.contains(&x) {
+                        continue;
+                    }
+                    node(x).unwrap().app.bi_stream_manage.do_send(rnacos::grpc::bistream_manage::BiStreamManageCmd::ConnClose(Arc::new(c_conn(x, *conn))));
+                    grpc_alive.retain(|_, o| *o != (x, *conn % 2));
+                    ops += 1;
+                    advance(20).await;
+                }
+                CStep::Advance { ms } => adv!(*ms),
+                CStep::NetFaults { on } => {
+                    net_set_cfg(if *on { fault_net.clone() } else { cfg.net.clone() });
+                    if *on {
+                        sim::count("fault.net_faults_on", 1);
+                    }
+                }
+                CStep::Cut { a, b } => {
+                    let (a, b) = (pick_node(*a), pick_node(*b));
+                    if a != b {
+                        partition(a, b, true);
+                        sim::count("fault.partition", 1);
+                    }
+                }
+                CStep::Heal => heal_all(),
+                CStep::Kill { node: x } => {
+                    let x = pick_node(*x);
+                    // one node at a time, so that a majority (and somebody to talk to) remains
+                    if killed.is_empty() {
+                        kill_node(x).await;
+                        killed.insert(x);
+                        sim::count("fault.kill", 1);
+                        // its connections die with it
+                        grpc_alive.retain(|_, o| o.0 != x);
+                    }
+                }
+                CStep::Restart { node: x } => {
+                    let x = pick_node(*x);
+                    if killed.contains(&x) {
+                        let via = all_ids.iter().find(|y| !killed.contains(y)).cloned().unwrap_or(1);
+                        start_node(&root, x, x == 1, if x == 1 { None } else { Some(via) }, &cfg.node).await.map_err(|e| Violation::new("harness.start", e.to_string()))?;
+                        killed.remove(&x);
+                        sim::count("probe.node_rejoined", 1);
+                    }
+                }
+            }
+            advance(3).await;
+            beats!();
+        }
+        // ---- quiescence: faults stop, heartbeats continue ----
+        heal_all();
+        net_set_cfg(cfg.net.clone());
+        sim::event("quiescence");
+        // B covers the 500 ms batch, 3 s ping / 15 s liveness, 12 s distro diff, 30 s push and 45 s pull of a
+        // rejoined node, plus both time-outs for instances whose owner died
+        let b_ms = script["bound_ms"].as_u64().unwrap_or(75_000);
+        adv!(b_ms);
+        let live: Vec<u64> = all_ids.iter().filter(|x| !killed.contains(x)).cloned().collect();
+        let mut all_sets = vec![];
+        for s in 0..3u8 {
+            let name = CSVCS[s as usize];
+            let mut per_node: BTreeMap<u64, BTreeSet<(String, bool, bool, u32)>> = BTreeMap::new();
+            for x in &live {
+                per_node.insert(*x, served(&node(*x).unwrap(), name).await);
+            }
+            // keys whose last HTTP operation went unanswered are neither known to the harness nor heart-beating: the
+            // statement still wants them to converge (to "gone"); the recorded defect F25 (a silent instance whose time
+            // stamp was refreshed by a sync is never removed) is reported for them separately
+            let unk: BTreeSet<String> = unknown.iter().filter(|(us, _)| *us == s).map(|(_, a)| c_ip(*a)).collect();
+            if !unk.is_empty() {
+                let raw_first = per_node.values().next().cloned().unwrap_or_default();
+                let differs = per_node.values().any(|v| *v != raw_first);
+                let still: Vec<&String> = unk.iter().filter(|ip| per_node.values().any(|v| v.iter().any(|e| &e.0 == *ip))).collect();
+                if (differs || !still.is_empty()) && !still.is_empty() && zombie.is_none() {
+                    zombie = Some(Violation::new("C15.silent_instance_never_removed", format!("service {}: instance(s) {:?} registered over HTTP and not heart-beating since an unanswered operation are still served {} s after quiescence: {:?}", name, still, b_ms / 1000, per_node)));
+                }
+                for v in per_node.values_mut() {
+                    v.retain(|e| !unk.contains(&e.0));
+                }
+            }
+            let first = per_node.values().next().cloned().unwrap_or_default();
+            for (x, set) in &per_node {
+                if *set != first {
+                    let only_here: Vec<_> = set.difference(&first).collect();
+                    let missing_here: Vec<_> = first.difference(set).collect();
+                    vfail!("C15.nodes_disagree", "{} s after the last operation and fault, service {}: node {} serves {:?} but node {} serves {:?} (only on node {}: {:?}; missing there: {:?})", b_ms / 1000, name, live[0], first, x, set, x, only_here, missing_here);
+                }
+            }
+            // the agreed set contains what must be there and nothing that must be gone
+            let ips: BTreeSet<String> = first.iter().map(|e| e.0.clone()).collect();
+            for ((ms, a), (enabled, w)) in &http_alive {
+                if *ms == s {
+                    vensure!(ips.contains(&c_ip(*a)), "C15.live_instance_missing", "service {}: the HTTP instance {} whose heartbeats never stopped is served by no node (all serve {:?})", name, c_ip(*a), first);
+                    let e = first.iter().find(|e| e.0 == c_ip(*a)).unwrap();
+                    vensure!(e.1, "C15.live_instance_unhealthy", "service {}: the HTTP instance {} whose heartbeats never stopped is served as unhealthy by all nodes", name, c_ip(*a));
+                    let _ = (enabled, w);
+                }
+            }
+            for ((ms, a), (x, c)) in &grpc_alive {
+                if *ms == s {
+                    vensure!(ips.contains(&c_ip(*a)), "C15.live_instance_missing", "service {}: the instance {} held by the open gRPC connection {} on live node {} is served by no node (all serve {:?})", name, c_ip(*a), c_conn(*x, *c), x, first);
+                }
+            }
+            for e in &first {
+                let a = (0..5u8).find(|a| c_ip(*a) == e.0).unwrap_or(9);
+                let expected = http_alive.contains_key(&(s, a)) || grpc_alive.contains_key(&(s, a)) || unknown.contains(&(s, a));
+                vensure!(expected, "C15.dead_instance_served", "service {}: {} is still served by every node {} s after quiescence although it was deregistered, its connection ended or its node died", name, e.0, b_ms / 1000);
+            }
+            all_sets.push(first);
+        }
+        digest = digest_str(&format!("{:?}", all_sets));
+        Ok(())
+    }
+    .await;
+    if let Some(z) = zombie {
+        findings.push(z);
+    }
+    let info = RunInfo { digest, nontrivial: ops >= 4, info: json!({"ops": ops}), findings };
+    for n in live_nodes() {
+        kill_node(n.id).await;
+    }
+    ExecResult { violation: r.err(), info }
+}
+
+pub struct C15;
+impl Check for C15 {
+    fn id(&self) -> &'static str {
+        "C15"
+    }
+    fn generate(&self, seed: u64, _tier: Tier) -> Value {
+        let mut rng = Rng::derive(seed, "C15.gen", 0);
+        let mut cfg = NCfg::default();
+        cfg.nodes = 3;
+        cfg.node.snapshot_log_size = 10_000;
+        cfg.node.naming_health_timeout = rng.range(5, 12) * 1000;
+        cfg.node.naming_instance_timeout = cfg.node.naming_health_timeout + rng.range(5, 10) * 1000;
+        // swarm: which fault kinds this run uses
+        let use_net = rng.chance(0.5);
+        let use_cut = rng.chance(0.3);
+        let use_kill = rng.chance(0.4);
+        let fault_net = NetCfg { p_drop_req: *rng.pick(&[0.0, 0.05, 0.2]), p_drop_resp: *rng.pick(&[0.0, 0.05]), p_dup: *rng.pick(&[0.0, 0.1]), p_slow: *rng.pick(&[0.0, 0.1, 0.3]), slow_max_ms: 2500, faults_only: "NamingRoute".to_string(), ..NetCfg::default() };
+        let n = rng.range(6, 40);
+        let mut steps = vec![];
+        for _ in 0..n {
+            let r = rng.below(100);
+            let node = rng.below(3) as u8;
+            let svc = rng.below(3) as u8;
+            let ip = rng.below(5) as u8;
+            let conn = rng.below(2) as u8;
+            let st = if r < 25 {
+                CStep::HttpReg { node, svc, ip, enabled: rng.chance(0.85), weight: rng.below(3) as u8 }
+            } else if r < 33 {
+                CStep::HttpDereg { node, svc, ip }
+            } else if r < 55 {
+                CStep::GrpcReg { node, conn, svc, ip }
+            } else if r < 62 {
+                CStep::GrpcDereg { node, conn, svc, ip }
+            } else if r < 68 {
+                CStep::ConnClose { node, conn }
+            } else if r < 80 {
+                CStep::Advance { ms: *rng.pick(&[50u64, 300, 600, 2000, 6000, 16000]) }
+            } else if r < 86 && use_net {
+                CStep::NetFaults { on: rng.chance(0.6) }
+            } else if r < 90 && use_cut {
+                if rng.chance(0.6) { CStep::Cut { a: node, b: rng.below(3) as u8 } } else { CStep::Heal }
+            } else if r < 95 && use_kill {
+                if rng.chance(0.5) { CStep::Kill { node } } else { CStep::Restart { node } }
+            } else {
+                CStep::Advance { ms: 100 }
+            };
+            steps.push(st);
+        }
+        json!({"check": "C15", "seed": seed, "cfg": cfg, "fault_net": fault_net, "bound_ms": 75_000, "steps": steps})
+    }
+    fn execute(&self, script: Value) -> LocalFut<ExecResult> {
+        Box::pin(exec_c15(script))
+    }
+}
